@@ -253,5 +253,22 @@ func TestC14(t *testing.T) {
 			sendDeadlineCase(t, r, c, j)
 		}
 	}
+	// chunked messages under transport faults, receive deadlines and frequent keepalive pings
+	// (C14_with_C01 on real connections): what Recv returns is a prefix of what Send accepted
+	var chunked []*GbnScenario
+	for _, sc := range c01Scenarios() {
+		if strings.HasPrefix(sc.Name, "chunked-") {
+			chunked = append(chunked, sc)
+		}
+	}
+	forEachScenario(t, chunked, func(sc *GbnScenario, res *GbnResult) {
+		if res.Panic != "" || res.HsErr[0] != "" || res.HsErr[1] != "" {
+			return
+		}
+		r.Case("faulty-"+sc.Name, true, "chunked-under-faults")
+		if ok, why := prefixOracle(res); !ok {
+			r.Violate("C14/message-corrupted-under-faults", why, sc)
+		}
+	})
 	r.Sample(map[string]interface{}{"maxChunk": 4, "lens": []int{9, 0, 4}, "model": "chunk.split 4 <payload> -> 4:0,4:0,1:1"})
 }
